@@ -3,7 +3,7 @@ CHECK = dict(
     parts=[dict(name='sched3', src=['harness/sched.c'], lib=['list.c', 'messageq.c', 'util.c', '@VERIF@/harness/sched_shim.c'], cflags=['-DPROP=3'], workers=12,
                 deadline=dict(quick=300, thorough=3000)),
            dict(name='c03s', src=['harness/c06_fibre.c'], cflags=['-DPROP=3', '-Wno-format-truncation'], workers=64,
-                objs=[('@VERIF@/harness/c06_scn.c', ['-fsanitize=thread'])],
+                objs=[('@VERIF@/harness/c06_scn.c', ['-fsanitize=thread', '-Dmemset=vs_memset', '-Dmemcpy=vs_memcpy', '-Dmemmove=vs_memmove'])], objs_lib=True,
                 deadline=dict(quick=300, thorough=3000))],
     rule='explicit-state BFS over histories of the real fibre.c scheduler (file-scope state reached by #including fibre.c) '
          'against a FIFO/timer/atomic-queue model; alphabet: fibre_run, fibre_run_atomic, fibre_kill from outside and '
